@@ -71,6 +71,11 @@ def _items():
                 '#[verifier::external_body]\n'
                 'pub fn san4_%s(x: %s) -> (r: %s) ensures r == SPEC_SAN4_%s(x) { unimplemented!() }\n'
                 % (T, t, t, t, t, t, T))
+        # a PARTIAL predicate: only defined on values the rule written before it admits (x > 0);
+        # being called on anything else is an error of the caller (it would divide by zero)
+        add('pred_partial_%s' % t,
+            'pub fn pred_partial_%s(x: &%s) -> bool { assert!(*x > (0 as %s), "predicate called on a value that an earlier rule excludes"); *x != (7 as %s) }\n' % (t, t, t, t),
+            '')
         add('ONE_%s' % T, 'pub const ONE_%s: %s = 1 as %s;\n' % (T, t, t), 'pub const ONE_%s: %s = 1 as %s;\n' % (T, t, t))
         add('pred_%s' % t,
             'pub const fn pred_%s(x: &%s) -> bool { %s }\n' % (t, t, pred_body),
